@@ -52,7 +52,7 @@ def split_args(s):
             buf = ""
             while j < n and s[j] != '"':
                 if s[j] == "\\" and j + 1 < n:
-                    buf += s[j + 1]
+                    buf += {"n": "\n", "r": "\r", "t": "\t"}.get(s[j + 1], s[j + 1])      # the escapes of split_string_v2
                     j += 2
                     continue
                 buf += s[j]
